@@ -107,9 +107,15 @@ def check_versions(ctx, facts, rule):
         roles = VRoles(facts)
         ms = roles.methods(facts)
         # by signature: (&mut self, usize, ts) -> bool = stamp update; (&self, ts) -> bool = cut-off predicate; (&mut self, Self) = merge
-        upd = [b for b in ms if b.argc == 3 and b.local_ty(0) == 'bool' and b.local_ty(1).startswith('&mut') and b.local_ty(2) == 'usize']
+        def verdict(ty):
+            # bool, or a private field-less two-variant enum (Fresh / Stale)
+            if ty == 'bool':
+                return True
+            a_ = facts.adts.get(strip_generics(ty))
+            return bool(a_ is not None and a_['kind'] == 'enum' and a_['def'].startswith(CR) and len(a_['variants']) == 2 and all(not v_['fields'] for v_ in a_['variants']))
+        upd = [b for b in ms if b.argc == 3 and verdict(b.local_ty(0)) and b.local_ty(1).startswith('&mut') and b.local_ty(2) == 'usize']
         pred = [b for b in ms if b.argc == 2 and b.local_ty(0) == 'bool' and b.local_ty(1).startswith('&') and not b.local_ty(1).startswith('&mut') and b.local_ty(2).endswith('HLCTimestamp')]
-        mrg = [b for b in ms if b.argc == 2 and b.local_ty(1).startswith('&mut') and 'NodeVersions' in b.local_ty(2) and not b.local_ty(2).startswith('&')]
+        mrg = [b for b in ms if b.argc == 2 and b.local_ty(1).startswith('&mut') and 'NodeVersions' in b.local_ty(2) and not b.local_ty(2).startswith('&mut')]      # (the peer's vectors by value or by shared reference)
         if len(upd) != 1 or len(pred) != 1 or len(mrg) != 1:
             raise Unmodelled('stamp update / cut-off predicate / merge of NodeVersions not identified by signature (%d/%d/%d)' % (len(upd), len(pred), len(mrg)))
         upd, pred, mrg = upd[0], pred[0], mrg[0]
@@ -133,7 +139,8 @@ def check_versions(ctx, facts, rule):
                 r = it.run_body(upd, [('ref', Cell(v)), ('int', 0), ('ts', 'in')])
                 st, co = roles.read(v)
                 consts |= {x[1] for x in it.trace if isinstance(x, tuple) and x[0] == 'forgiveness'}
-                results['upd'].append(((a_rel, b_kind, c_kind), ranks, r[1], st, co))
+                rr_ = it.deref_all(r)
+                results['upd'].append(((a_rel, b_kind, c_kind), ranks, (rr_[1] if rr_[0] == 'bool' else ('variant', rr_[2])), st, co))
         # ---- predicate ------------------------------------------------------------------------------------------------
         for c_rel in (None, '<', '=', '>'):
             ranks = {'in': 5}
@@ -156,7 +163,7 @@ def check_versions(ctx, facts, rule):
                     it = Interp(facts, rank_order(ranks), opaque_call=ts_algebra)
                     v = roles.make([{'n': 'a'} if s_kind else {}, {}], cutoff={})
                     o = roles.make([{'n': 'o'} if o_kind else {}, {}], cutoff={})
-                    it.run_body(mrg, [('ref', Cell(v)), o])
+                    it.run_body(mrg, [('ref', Cell(v)), ('ref', Cell(o)) if mrg.local_ty(2).startswith('&') else o])
                     st, co = roles.read(v)
                     consts |= {x[1] for x in it.trace if isinstance(x, tuple) and x[0] == 'forgiveness'}
                     results['mrg'].append(((s_kind, o_kind, rel), ranks, st, co))
@@ -178,7 +185,11 @@ def check_versions(ctx, facts, rule):
             return x.endswith('-F') and y.endswith('-F') and same(ranks, x[:-2], y[:-2])
         return x in ranks and y in ranks and ranks[x] == ranks[y]
     # stamp update
+    # a verdict enum: the variant answered when the source has no stamp yet (always accepted) is "accepted"
+    acc_ = {ret for (a_rel, _b, _c), _r, ret, _s, _co in results['upd'] if a_rel is None and isinstance(ret, tuple)}
     for (a_rel, b_kind, c_kind), ranks, ret, st, co in results['upd']:
+        if isinstance(ret, tuple):
+            ret = (ret in acc_) if len(acc_) == 1 else None
         want_ret = a_rel != '>'
         want0 = 'a' if a_rel == '>' else 'in'
         got0 = st[0].get('n')
